@@ -99,6 +99,16 @@ def ow_step(n, k):
     return dict(OVERWRITES[k % len(OVERWRITES)], kind="overwrite", id=f"o{n}")
 
 
+def overrides_preset(iso):
+    """custom column overrides as a scenario YAML can give them: the country's crop_kcals halved, another population,
+    another carcass weight (keys equal to a csv column + kg_meat_per_large_animal)"""
+    import csv
+    row = [r for r in csv.DictReader(open(os.path.join(lib.REPO, "data", "no_food_trade", "computer_readable_combined.csv")))
+           if r["iso3"] == iso][0]
+    return dict(NW, crop_kcals=float(row["crop_kcals"]) / 2, population=round(float(row["population"]) * 1.5),
+                kg_meat_per_large_animal=250, shutoff="short_delayed_shutoff")
+
+
 def make_plan(ctx):
     rng = ctx.rng
     others = [p for p in PRESETS if p != "baseline"]
@@ -111,13 +121,15 @@ def make_plan(ctx):
         # a head-count override always precedes runs of other countries; two runs with cellulosic sugar enabled follow
         # each other in both orders (module-level tables scaled in place would compound)
         pairs = [pt, (c1, "baseline"), (c2, "baseline"), (c1, pt[1]), ("NZL", "baseline"), ("ARG", "nw_plain"),
-                 (c2, "heads"), (c1, rng.choice(["cs_only", "industrial"])), ("ARG", "nw_resilient")]
+                 (c2, "heads"), (c1, rng.choice(["cs_only", "industrial"])), ("ARG", "nw_resilient"), (c2, "overrides")]
+        PRESETS["overrides"] = overrides_preset(c2)
     else:
         cs = rng.sample([c for c in COUNTRIES if c not in ("SLV", "ALB", "ECU")], 5)
         pairs = rng.sample(PATCHED[:4], 2) + [PATCHED[4]] + [(c, "baseline") for c in cs[:3]]
         pairs += [("NZL", "baseline"), ("ARG", "nw_plain"), (cs[0], "heads"), (cs[1], "cs_only"), ("ARG", "nw_resilient"),
-                  (cs[2], "industrial")]
-        while len(pairs) < 18:
+                  (cs[2], "industrial"), (cs[3], "overrides")]
+        PRESETS["overrides"] = overrides_preset(cs[3])
+        while len(pairs) < 19:
             cand = (rng.choice(cs + ["SLV", "ECU"]), rng.choice(others))
             if cand not in pairs:
                 pairs.append(cand)
@@ -147,6 +159,10 @@ def make_plan(ctx):
         b.append(dict(run_step(n, [p[1][0]], "baseline", yaml_group="y0"), own_nmonths=36, nocompare=True)); n += 1
         b.append(run_step(n, [p[1][0]], p[3][1], yaml_group="y0"))
         batches.append(b)
+        # ONE ScenarioRunnerNoTrade object reused by every run of the history (as run_many_options does); a run with custom
+        # column overrides precedes runs without them
+        seq = [p[9], p[5], p[1], p[2], p[9], p[4], p[5]]
+        batches.append([dict(run_step(i, [x[0]], x[1]), runner="shared") for i, x in enumerate(seq)])
     else:
         nb = 40
         for k in range(nb):
@@ -173,6 +189,12 @@ def make_plan(ctx):
                 if len(grp) > 1 and k % 2 == 0:
                     grp[0] = dict(grp[0], own_nmonths=rng.choice([24, 36, 60]), nocompare=True)
                 b[pos:pos] = grp
+            if k % 4 == 1:
+                # the whole history on one reused runner object, an overrides run somewhere before the end
+                ov = [x for x in pairs if x[1] in ("overrides", "popx")]
+                x = rng.choice(ov)
+                b.insert(rng.randrange(max(1, len(b) - 2)), run_step(900 + k, [x[0]], x[1]))
+                b = [dict(st, runner="shared") if st["kind"] == "run" and "yaml_group" not in st else st for st in b]
             batches.append(b)
     return pairs, batches
 
@@ -438,7 +460,7 @@ def run(ctx):
         return
     pairs, batches = make_plan(ctx)
     ctx.notes["pairs"] = [list(p) for p in pairs]
-    ctx.notes["histories"] = [[(s["countries"], s["preset"] + ("@yaml" if "yaml_group" in s else "")) if s["kind"] == "run"
+    ctx.notes["histories"] = [[(s["countries"], s["preset"] + ("@yaml" if "yaml_group" in s else "") + ("@shared-runner" if s.get("runner") else "")) if s["kind"] == "run"
                                else s["how"] for s in b] for b in batches][:8]
     jobs = []
     for i, (c, p) in enumerate(pairs):
@@ -633,6 +655,7 @@ def settings_key(pr):
 def report_difference(ctx, hist, si, pr, a, so, k):
     """shrink to a two-step history when possible, then file the violation with both histories"""
     target = run_step(99, [pr[0]], pr[1])
+    target_in = dict(target, runner=hist[si]["runner"]) if hist[si].get("runner") else target
     cands = []
     if hist[si].get("yaml_group") is not None:
         # the other simulations of the same YAML file that precede it, then the simulation itself, through the driver
@@ -640,7 +663,7 @@ def report_difference(ctx, hist, si, pr, a, so, k):
         if grp:
             cands.append(grp + [hist[si]])
     for j in range(si):
-        cands.append([dict(hist[j], id=f"p{j}"), target])
+        cands.append([dict(hist[j], id=f"p{j}"), target_in])
     if len(hist[si]["countries"]) > 1:
         cands.append([dict(hist[si], id="m")])
     small = None
@@ -662,7 +685,9 @@ def report_difference(ctx, hist, si, pr, a, so, k):
     else:
         parts = ["the run fails in history A: " + got.get("err", "?") + (" (alone: " + a["step"].get("err", "completes") + ")")]
     ctx.tie_ok = ctx.tie_ok  # (the tie is judged by the trace checks; a difference with a disciplined trace is reported there)
-    ctx.violation(f"C14:history-dependence:{pr[0]}/{pr[1]}",
+    reused = any(x.get("runner") for x in small if x["kind"] == "run")
+    ctx.violation((f"C14:history-dependence-on-reused-runner:{pr[0]}/{pr[1]}" if reused and hist[si].get("runner") else
+                   f"C14:history-dependence:{pr[0]}/{pr[1]}"),
                   f"result of {pr} after {[(s.get('countries'), s.get('preset')) if s['kind'] == 'run' else s['how'] for s in small[:-1]] or 'a multi-country call'} "
                   f"differs from the same run alone in a fresh process: {parts[:4]}",
                   {"kind": "counterexample", "check": "differential", "presets": PRESETS, "history_A": small,
